@@ -38,7 +38,7 @@ pub enum Step {
     SingleError(Single, u32),
     SingleTimeout(Single, bool),
     /// how, number of entries (per page for paged), pages, read at most this many items before finish (None = to the end)
-    Search { how: SearchHow, n: u8, pages: u8, read: Option<u8> },
+    Search { how: SearchHow, n: u8, pages: u8, read: Option<u8>, #[serde(default)] open: bool },
     SearchTimeout { adapted: bool, late: bool },
     Abandon(AbandonTarget),
     Unsolicited(u8),
@@ -57,7 +57,12 @@ fn strat(_: &Ctx) -> BoxedStrategy<Case> {
         4 => simops::single_strat().prop_map(Step::Single),
         1 => (simops::single_strat(), prop_oneof![Just(32u32), Just(49u32), Just(53u32), Just(10u32)]).prop_map(|(s, c)| Step::SingleError(s, c)),
         2 => (simops::single_strat(), any::<bool>()).prop_map(|(s, l)| Step::SingleTimeout(s, l)),
-        6 => (how, 0u8..5, 1u8..4, proptest::option::weighted(0.35, 0u8..4)).prop_map(|(how, n, pages, read)| Step::Search { how, n, pages, read }),
+        6 => (how, 0u8..5, 1u8..4, proptest::option::weighted(0.45, 0u8..6), any::<bool>()).prop_map(|(how, n, pages, read, open)| {
+            // "open": the server withholds the final result of the (last served) page, so that an early
+            // finish() happens while the search is still open at the driver; only with a read limit
+            let open = open && read.is_some() && how != SearchHow::Conv;
+            Step::Search { how, n, pages, read, open }
+        }),
         1 => (any::<bool>(), any::<bool>()).prop_map(|(adapted, late)| Step::SearchTimeout { adapted, late }),
         3 => prop_oneof![Just(AbandonTarget::Finished), Just(AbandonTarget::TimedOut), Just(AbandonTarget::InFlight), Just(AbandonTarget::NeverIssued)].prop_map(Step::Abandon),
         1 => (0u8..3).prop_map(Step::Unsolicited),
@@ -68,9 +73,10 @@ fn strat(_: &Ctx) -> BoxedStrategy<Case> {
 #[derive(Clone, Debug)]
 enum Plan {
     /// answer with these entries then a result with this code
-    Answer { entries: u8, rc: u32 },
+    Answer { entries: u8, rc: u32, open: bool },
     Silent { late: bool },
-    Paged { per_page: u8, pages: u8 },
+    /// open_page: the final result of this page index is withheld (and sent late)
+    Paged { per_page: u8, pages: u8, open_page: Option<usize> },
 }
 
 #[derive(Default)]
@@ -82,6 +88,8 @@ struct Shared {
     wire_ids: HashMap<usize, Vec<i64>>,
     problems: Vec<String>,
     silent_ids: Vec<(i64, u8, bool)>,
+    /// withheld final results: sent after the step, when nobody waits for them any more
+    withheld: Vec<Vec<u8>>,
 }
 
 const PAGED_OID: &str = "1.2.840.113556.1.4.319";
@@ -111,24 +119,34 @@ async fn server(wire: sim::Wire, sh: Arc<Mutex<Shared>>) {
                 };
                 let mut out = Vec::new();
                 match plan {
-                    Some(Plan::Answer { entries, rc }) => {
+                    Some(Plan::Answer { entries, rc, open }) => {
                         if tag == 5 {
                             for e in 0..entries {
                                 out.extend_from_slice(&RespMsg::new(m.id, Resp::Entry(Entry::simple(&format!("cn=e{}", e)))).encode());
                             }
                         }
-                        out.extend_from_slice(&RespMsg::new(m.id, Resp::result(tag, Res::code(rc, ""))).encode());
+                        let fin = RespMsg::new(m.id, Resp::result(tag, Res::code(rc, ""))).encode();
+                        if open && tag == 5 {
+                            sh.lock().unwrap().withheld.push(fin);
+                        } else {
+                            out.extend_from_slice(&fin);
+                        }
                     }
                     Some(Plan::Silent { late }) => {
                         sh.lock().unwrap().silent_ids.push((m.id, tag, late));
                     }
-                    Some(Plan::Paged { per_page, pages }) => {
+                    Some(Plan::Paged { per_page, pages, open_page }) => {
                         for e in 0..per_page {
                             out.extend_from_slice(&RespMsg::new(m.id, Resp::Entry(Entry::simple(&format!("cn=p{}e{}", nth, e)))).encode());
                         }
                         let cookie: Vec<u8> = if nth + 1 < pages as usize { format!("ck{}", nth).into_bytes() } else { vec![] };
                         let ctl = RCtl { oid: PAGED_OID.into(), crit: CritForm::Absent, val: Some(paged_value(0, &cookie)) };
-                        out.extend_from_slice(&RespMsg { id: m.id, resp: Resp::result(5, Res::ok("")), ctrls: Some(vec![ctl]) }.encode());
+                        let fin = RespMsg { id: m.id, resp: Resp::result(5, Res::ok("")), ctrls: Some(vec![ctl]) }.encode();
+                        if open_page == Some(nth) {
+                            sh.lock().unwrap().withheld.push(fin);
+                        } else {
+                            out.extend_from_slice(&fin);
+                        }
                     }
                     None => sh.lock().unwrap().problems.push(format!("no plan for op {}", idx)),
                 }
@@ -166,6 +184,13 @@ impl Cx {
         (i, simops::marker(i))
     }
     /// late replies for silent ids flagged `late`
+    /// withheld final results arrive when the search has long been finished by the caller
+    fn send_withheld(&mut self) {
+        let w: Vec<Vec<u8>> = std::mem::take(&mut self.sh.lock().unwrap().withheld);
+        for b in w {
+            self.wire.push(&b);
+        }
+    }
     fn send_late(&mut self) {
         let ids: Vec<(i64, u8, bool)> = std::mem::take(&mut self.sh.lock().unwrap().silent_ids);
         for (id, tag, late) in ids {
@@ -179,13 +204,13 @@ impl Cx {
 async fn do_step(cx: &mut Cx, step: &Step) -> Result<(), Fail> {
     match step {
         Step::Single(k) => {
-            let (_, mk) = cx.plan(Plan::Answer { entries: 0, rc: 0 });
+            let (_, mk) = cx.plan(Plan::Answer { entries: 0, rc: 0, open: false });
             let r = simops::exec_single(&mut cx.ldap, *k, &mk).await;
             ensure!(r.is_ok(), "c13:op-failed", "{:?} failed: {:?}", k, r.err().map(|e| err_kind(&e)));
             cx.last_finished = Some(cx.ldap.last_id());
         }
         Step::SingleError(k, rc) => {
-            let (_, mk) = cx.plan(Plan::Answer { entries: 0, rc: *rc });
+            let (_, mk) = cx.plan(Plan::Answer { entries: 0, rc: *rc, open: false });
             let r = simops::exec_single(&mut cx.ldap, *k, &mk).await;
             ensure!(r.map(|r| r.rc).ok() == Some(*rc), "c13:op-failed", "{:?} did not return code {}", k, rc);
             cx.last_finished = Some(cx.ldap.last_id());
@@ -199,9 +224,17 @@ async fn do_step(cx: &mut Cx, step: &Step) -> Result<(), Fail> {
             quiesce().await;
             cx.send_late();
         }
-        Step::Search { how, n, pages, read } => {
+        Step::Search { how, n, pages, read, open } => {
             let paged = matches!(how, SearchHow::Paged | SearchHow::EntriesOnlyPaged);
-            let (_, mk) = cx.plan(if paged { Plan::Paged { per_page: *n, pages: *pages } } else { Plan::Answer { entries: *n, rc: 0 } });
+            // with an open search the caller must not ask for more items than will arrive
+            let open_page = if *open && paged { Some((*pages as usize - 1).min(1)) } else { None };
+            let available = match (paged, open_page) {
+                (true, Some(op)) => *n as usize * (op + 1),
+                (true, None) => *n as usize * *pages as usize,
+                (false, _) => *n as usize,
+            };
+            let read = &if *open { read.map(|k| (k as usize).min(available) as u8) } else { *read };
+            let (_, mk) = cx.plan(if paged { Plan::Paged { per_page: *n, pages: *pages, open_page } } else { Plan::Answer { entries: *n, rc: 0, open: *open } });
             let total = if paged { *n as usize * *pages as usize } else { *n as usize };
             if *how == SearchHow::Conv {
                 let r = cx.ldap.search(&mk, Scope::Subtree, "(a=b)", vec!["a"]).await;
@@ -249,8 +282,10 @@ async fn do_step(cx: &mut Cx, step: &Step) -> Result<(), Fail> {
             } else {
                 // what finish() returns here is C10's / C16's business
                 let _ = res;
-                cx.notes.push("early-finish".into());
+                cx.notes.push(if *open { "early-finish-of-open-search".into() } else { "early-finish".into() });
             }
+            // the withheld final result is sent by the caller of do_step, after the quiescent-point check:
+            // a late result would otherwise clean up what the early finish() should have released
         }
         Step::SearchTimeout { adapted, late } => {
             let (_, mk) = cx.plan(Plan::Silent { late: *late });
@@ -322,6 +357,7 @@ async fn do_step(cx: &mut Cx, step: &Step) -> Result<(), Fail> {
 fn step_class(s: &Step) -> String {
     match s {
         Step::Search { how, read: None, .. } => format!("{:?}-search-read-to-end", how),
+        Step::Search { how, read: Some(_), open: true, .. } => format!("{:?}-search-finished-early-while-open", how),
         Step::Search { how, read: Some(_), .. } => format!("{:?}-search-finished-early-or-at-limit", how),
         Step::Abandon(t) => format!("abandon-{:?}", t),
         Step::Single(_) => "single".into(),
@@ -364,6 +400,9 @@ pub fn check(case: &Case, obs: &mut Obs) -> Result<(), Fail> {
                     result = Err(Fail::new(format!("c13:routing-leak:{}", step_class(step)), format!("round {} step {} ({:?}): nothing is outstanding but the driver holds {} result and {} search routing entries", round, i, step, g.0, g.1)));
                     break 'outer;
                 }
+                // now the withheld final results of open searches arrive, as late replies
+                cx.send_withheld();
+                quiesce().await;
             }
         }
         let problems = sh.lock().unwrap().problems.clone();
@@ -401,7 +440,7 @@ pub fn property() -> Property {
     Property {
         id: "C13",
         level: "exploration",
-        rule: "generated histories of 3-14 steps, repeated 1-3 times on one connection (up to 42 steps), mixing: the 7 single-result operations (success and error codes), operations and searches that time out against a silent server (with or without a late reply), direct / EntriesOnly / search() / PagedResults / [EntriesOnly, PagedResults] searches with 0-4 entries (x 1-3 pages) read to the end or finish()ed after k items, abandon of a finished, timed-out, in-flight or never-issued id, unsolicited responses. Oracle at every quiescent point (virtual-clock quiescence: no task can run): the id table's in-use set is empty and both routing-map gauges are 0; abandon puts an AbandonRequest naming exactly the id on the wire, releases a waiting caller with an error, and the id leaves the in-use set. Non-trivial: >=3 steps including >=1 search, abandon or timeout. Distinct = debug rendering of the step list.",
+        rule: "generated histories of 3-14 steps, repeated 1-3 times on one connection (up to 42 steps), mixing: the 7 single-result operations (success and error codes), operations and searches that time out against a silent server (with or without a late reply), direct / EntriesOnly / search() / PagedResults / [EntriesOnly, PagedResults] searches with 0-4 entries (x 1-3 pages) read to the end or finish()ed after k items - also while the search is still OPEN at the driver (the server withholds the final result of the page / search and sends it late), abandon of a finished, timed-out, in-flight or never-issued id, unsolicited responses. Oracle at every quiescent point (virtual-clock quiescence: no task can run): the id table's in-use set is empty and both routing-map gauges are 0; abandon puts an AbandonRequest naming exactly the id on the wire, releases a waiting caller with an error, and the id leaves the in-use set. Non-trivial: >=3 steps including >=1 search, abandon or timeout. Distinct = debug rendering of the step list.",
         assumptions: &["hooks verif_msgmap / verif_gauges expose the id table and the sizes of the routing maps", "streams dropped without finish() are not 'completed' and are not generated", "server disconnects are C04's"],
         lanes: vec![Box::new(PLane { name: "histories", cases: |t| t.pick(1_000, 15_000), strat, check })],
         workers: (8, 16),
